@@ -248,3 +248,9 @@ def _(ctx):
                 ctx.record('%s.params_%s.path%d' % (NAMES[yt], 'set' if nz else 'unset', n), PROVED if ok else FAILED, 'B', 0,
                            'exception=%s state_changed=%s effects=%s' % (exc, before != after, sorted(kinds)))
             ctx.merge_rules(it)
+
+
+def fidelity(tier, seed):
+    """A-FRONT guard: THDM a_mu functions and getters, interpreter (float mode) vs compiled real code on real models"""
+    from gm2v import fidelity as _fid
+    return _fid.thdm_model_guard(seed=seed)
